@@ -46,4 +46,17 @@ def run(chk):
                 chk.hist("xreply_ok state family")
     mf = run_model(drv, fam); df = run_daemons(impl, fam)
     analyse(chk, drv, impl, fam, mf, df, project=classes, judge=judge, what="class rules (xreply_ok states): ", nontrivial=nontriv)
+    # the address criterion on its boundary: one mask text per history, clients inside, just outside and far away
+    masks = ['10.1.2.0/24', '10.1.2.5/32', '10.1.2.5', '10.1.2.4/31', '10.1.2.*', '10.*', '*', '10.0.0.0/8', '10.1.2.5/0', '0.0.0.0/0', '::ffff:10.1.2.5/128', '::ffff:10.1.2.0/120',
+             '2001:db8::/32', '2001:db8::5/128', '2001:db8:0:0:0:0:0:5/128', '2001:db8::5', '2001:db8::4/127', '2001:db8:*', '2001:db8::/0', '::/0', '2001:db8::100/120', '2001:db8:0:0:8000::/65', '::5/128', '0::/1']
+    clients = ['10.1.2.5', '10.1.2.4', '10.1.2.6', '10.1.3.5', '11.1.2.5', '138.1.2.5', '2001:db8::5', '2001:db8::4', '2001:db8::6', '2001:db8::105', '2001:db8:0:0:8000::1', '2001:db9::5', '::5', 'a001:db8::5']
+    afam = []
+    for mk_ in masks:
+        ls = []
+        for k, a in enumerate(clients):
+            ls += ["%d C %s 4002 10.0.0.1 6667" % (k + 1, a), "%d H" % (k + 1), "%d D" % (k + 1)]
+        afam.append(Scn(False, True, [], [dict(name='10-in', address=mk_, **{'class': 'inside'}), dict(name='20-out', **{'class': 'outside'})], 0, L(*ls), "address criterion " + mk_))
+        chk.hist("address mask family")
+    ma = run_model(drv, afam); da = run_daemons(impl, afam)
+    analyse(chk, drv, impl, afam, ma, da, project=classes, judge=judge, what="class rules (address masks): ", nontrivial=nontriv)
     chk.cov["rule"] = "rule tables of 1-6 rules (names in mixed case, class or none, account / address / username / hostname / xreply_ok criteria subsets, globs with * and ?, CIDR and wildcard masks, trust_username) x client attribute combinations; projection = class field of D/R lines and U lines; distinct non-trivial = distinct traces in which some client received a class"
